@@ -4,6 +4,8 @@ The pre-state, the scenario key and the event are built with explicit, named z3
 constants; every index (struct field, enum variant) is looked up by NAME in the
 tables extracted from /repo's sources on this run.
 """
+import re
+
 import z3
 
 from mirsmt.values import Cell, Lazy, Adt, Ref, bv
@@ -76,15 +78,19 @@ class SymEvent:
         self.cur = z3.BitVec('%s.cur' % tag, 64)
         self.left = z3.BitVec('%s.left' % tag, 64)
         self.has_last = z3.Bool('%s.has_last' % tag)     # scenario.steps.last().is_some()
-        self.eq_last = z3.Bool('%s.eq_last' % tag)       # *last == step
+        self.eq_last = z3.Bool('%s.eq_last' % tag)       # *last == step (the whole gherkin::Step, position included)
+        # a step may LOOK like the last own step without being it (same keyword type and same text at another position)
+        self.same_ty = z3.Bool('%s.same_ty_as_last' % tag)
+        self.same_text = z3.Bool('%s.same_text_as_last' % tag)
         self.tag = tag
 
     def vars(self):
-        return [self.sc, self.hook, self.step, self.err, self.ret, self.cur, self.left, self.has_last, self.eq_last]
+        return [self.sc, self.hook, self.step, self.err, self.ret, self.cur, self.left, self.has_last, self.eq_last, self.same_ty, self.same_text]
 
     def well_formed(self, ix):
         return z3.And(z3.ULT(self.sc, bv(len(ix.Sc))), z3.ULT(self.hook, bv(len(ix.Hook))),
-                      z3.ULT(self.step, bv(len(ix.Step))), z3.ULT(self.err, bv(len(ix.Err))), z3.ULT(self.ret, bv(2)))
+                      z3.ULT(self.step, bv(len(ix.Step))), z3.ULT(self.err, bv(len(ix.Err))), z3.ULT(self.ret, bv(2)),
+                      z3.Implies(self.eq_last, z3.And(self.same_ty, self.same_text)))
 
     def build(self, ix):
         t_step = 'event::Step<W>'
@@ -150,9 +156,16 @@ class Harness:
             return Adt(dty, {(1, 0): Ref(cell, ())}, z3.If(ev.has_last, bv(1), bv(0)), None)
 
         def eq_model(ex_, info, a, dty):
-            if 'gherkin::Step' not in (info['self_ty'] or ''):
+            st = re.sub(r"[&\s]|'\w+", '', info['self_ty'] or '')
+            if st.endswith('StepType'):
+                r = ev.same_ty
+            elif st in ('String', 'std::string::String', 'str'):
+                r = ev.same_text
+            elif 'gherkin::Step' in st:
+                r = ev.eq_last
+            else:
                 raise Inconclusive('unexpected PartialEq::eq on %s' % info['self_ty'])
-            return ev.eq_last if info['method'] == 'eq' else z3.Not(ev.eq_last)
+            return r if info['method'] == 'eq' else z3.Not(r)
         M.table['<impl>::last'] = last_model
         M.table['PartialEq::eq'] = eq_model
         M.table['PartialEq::ne'] = eq_model
@@ -229,7 +242,8 @@ def transition_terms(H, res, k):
     t.update({'post.' + n: res['post'][n] for n in COUNTERS})
     t.update({'map.present': z3.Select(m0.present, k), 'map.ind': z3.Select(m0.leaves[0], k),
               'ev.sc': E.sc, 'ev.hook': E.hook, 'ev.step': E.step, 'ev.err': E.err, 'ev.ret': E.ret,
-              'ev.cur': E.cur, 'ev.left': E.left, 'ev.has_last': E.has_last, 'ev.eq_last': E.eq_last})
+              'ev.cur': E.cur, 'ev.left': E.left, 'ev.has_last': E.has_last, 'ev.eq_last': E.eq_last,
+              'ev.same_ty': E.same_ty, 'ev.same_text': E.same_text})
     return t
 
 
@@ -282,6 +296,8 @@ def transition_script(H, d):
         else:
             ev = 'ev step %d %s%s %s' % (1 if d['ev.eq_last'] else 0, kind, err, r)
     head = ['mode summarize', 'bg 1', 'own 2']
+    if sc in ('Background', 'Step') and not d['ev.eq_last'] and d.get('ev.same_ty') and d.get('ev.same_text'):
+        head.append('bgdup 0' if sc == 'Background' else 'dup 0')      # the event's step looks like the last own step
     return '\n'.join(head + pre) + '\n', '\n'.join(head + pre + [ev]) + '\n'
 
 
